@@ -10,7 +10,17 @@ from checks.common import conclude
 
 MODULE = "Nice.Props.C10"
 THEOREMS = [f"Nice.Props.C10.{t}" for t in (
-    "C10_wrong_conv_noop", "C10_short_packet_noop", "C10_long_packet_noop", "C10_parse_options_no_fault", "C10_shift_no_fault", "C10_swnd_scale_le_14", "C10_fifo_ok_preserved", "C10_rbuf_bounded", "C10_inv_preserved_partial")]
+    "C10_wrong_conv_noop",
+    "C10_short_packet_noop",
+    "C10_long_packet_noop",
+    "C10_parse_options_no_fault",
+    "C10_shift_no_fault",
+    "C10_swnd_scale_le_14",
+    "C10_fifo_ok_preserved",
+    "C10_rbuf_bounded",
+    "C10_inv_preserved_partial",
+    "C10_respects_window_counterexample",
+    "C10_respects_window_partial")]
 TRUSTED = [
     "Lean 4 kernel; axioms allowed: propext, Classical.choice, Quot.sound (audited by #print axioms on every run)",
     "hand-written model Nice/Model/PTcp.lean of agent/pseudotcp.c, tied by the ptcp_drv differential stream: every "
@@ -931,7 +941,7 @@ def run(tier, seed):
             st["libs"] = False
             st["log"] = log
         else:
-            nh, nl = (260, 60) if tier == "quick" else (4000, 800)
+            nh, nl = (520, 80) if tier == "quick" else (6000, 1200)
             base = seed * 1000003
             t0 = time.time()
             H = gen_parallel(exe, [f"C10/h/{base + i}" for i in range(nh)],
